@@ -685,8 +685,12 @@ unsigned cmb_random_loaded_dice(const unsigned n, const double *pa)
     }
 
     if (ui >= n) {
-        /* The probabilities sum to slightly less than one and x fell in the gap */
+        /* The probabilities sum to slightly less than one and x fell in the gap:
+         * take the last outcome that can occur at all */
         ui = n - 1u;
+        while ((ui > 0u) && (pa[ui] <= 0.0)) {
+            ui--;
+        }
     }
 
     cmb_assert_debug(ui < n);
